@@ -459,6 +459,11 @@ func (rs *runState) failsLike(p *Program, v *violationT) (bool, *violationT) {
 		nv.Signature = sig
 		nv.What = fmt.Sprintf("%s: %s failed: %s", p.Name, res.fail.Stage, normDiag(res.fail.Diag))
 		return true, &nv
+	case "accepted":
+		if res.fail == nil {
+			return true, &nv
+		}
+		return false, nil
 	case "crash":
 		if res.fail == nil || res.fail.Stage != "run" {
 			return false, nil
